@@ -1509,6 +1509,9 @@ class Interp:
                 return [(Str.lit(obj.text().replace(args[0].text(), args[1].text())), st)]
             return [(Opaque('m:replace', (obj,) + tuple(args), 'str'), st)]
         if name == 'split':
+            if lit and all(isinstance(a, Str) and a.is_lit() for a in args[:1]) and len(args) <= 1:
+                parts = obj.text().split(*[a.text() for a in args])
+                return [(Tup(tuple(Str.lit(p) for p in parts), 'list'), st)]
             return [(Opaque('m:split', (obj,) + tuple(args), 'list'), st)]
         return None
 
